@@ -49,6 +49,9 @@ Proof.
   - lia.
 Qed.
 
+Lemma zlen_nil_try : zlen (@nil tryctx) <= MaxTryNestingDepth.
+Proof. vm_compute; discriminate. Qed.
+
 Lemma clear_slot_ok sl hr : heap_ok (fst hr) -> heap_ok (fst (clear_slot sl hr)).
 Proof. intros H. destruct sl; simpl; [apply ref_remove_wl_ok|]; assumption. Qed.
 
@@ -64,7 +67,8 @@ Proof.
   destruct K as ((L & A & T) & (St & Es) & Fs & O & H & X & D).
   destruct (s_frames s) as [|f' fs] eqn:Ef.
   - destruct (s_outer s) as [|[sc' [f' fs']] o'] eqn:Eo.
-    + intros (_ & Dp & _). repeat split; try assumption; try constructor.
+    + intros (_ & Dp & _). repeat split; try assumption; try exact I; try apply Forall_nil.
+      * apply zlen_nil_try.
       * repeat apply clear_slot_ok. assumption.
       * rewrite Dp. assumption.
     + inv O. destruct H2 as ((St' & Es') & F' & Fs'). simpl in *.
@@ -83,9 +87,6 @@ Proof.
   induction ts as [|t ts IH]; simpl; [lia|]. rewrite zlen_cons'.
   destruct (t_state t); try case_if; rewrite ?zlen_cons'; lia.
 Qed.
-
-Lemma zlen_nil_try : zlen (@nil tryctx) <= MaxTryNestingDepth.
-Proof. vm_compute; discriminate. Qed.
 
 Lemma unwind_ok fuel : forall s s', state_ok s -> unwind fuel s = Some s' -> state_ok s'.
 Proof.
